@@ -132,6 +132,150 @@ def _run_in(case, tmp):
     return res
 
 
+# ----------------------------------------------------------------- converter output names
+# The converters (and the CLI commands wrapping them) normalise the output name to <name>.geff.  The
+# whole PARENT directory is snapshotted: an existing output must be refused with every byte under
+# the parent unchanged; with overwrite only the actual output location may change and must equal a
+# fresh conversion; a bystander geff at the unsuffixed / differently suffixed neighbour is untouched.
+OUTPUT_NAMES = ["x.geff", "x.zarr", "run1", "x.v1.geff", "a.b.c", "x.zarr/", "data.2024.tracks"]
+
+
+def walk(d):
+    out = {}
+    for dp, _dn, fn in os.walk(d):
+        for f in fn:
+            q = os.path.join(dp, f)
+            with open(q, "rb") as fh:
+                out[os.path.relpath(q, d).replace(os.sep, "/")] = fh.read()
+    return out
+
+
+def convert_call(entry, src_variant, out_arg, fmt, overwrite, work):
+    """one conversion through the Python function or the CLI command; returns the outcome class"""
+    conv = "ctc" if "ctc" in entry else "trackmate"
+    src = K.make_ctc(work, src_variant) if conv == "ctc" else K.make_trackmate(work, src_variant)
+    try:
+        if entry.startswith("cli_"):
+            from typer.testing import CliRunner
+
+            from geff._cli import app
+
+            cmd = "convert-ctc" if conv == "ctc" else "convert-trackmate-xml"
+            res = CliRunner().invoke(app, [cmd, src, str(out_arg), "--zarr-format", str(fmt)] + (["--overwrite"] if overwrite else []))
+            if res.exception is not None and not isinstance(res.exception, SystemExit):
+                raise res.exception
+            if res.exit_code != 0:
+                return f"exit{res.exit_code}"
+            return "ok"
+        from pathlib import Path
+
+        from geff.convert import from_ctc_to_geff, from_trackmate_xml_to_geff
+
+        f = from_ctc_to_geff if conv == "ctc" else from_trackmate_xml_to_geff
+        f(Path(src), out_arg, overwrite=overwrite, zarr_format=fmt)
+        return "ok"
+    except BaseException as e:  # noqa: BLE001
+        return exc_class(e)
+
+
+def run_names_case(case):
+    try:
+        return _run_names_case(case)
+    except BaseException as e:  # noqa: BLE001
+        import traceback
+
+        return {"case": case, "harness_error": f"{type(e).__name__}: {e}", "tb": traceback.format_exc()[-1500:]}
+
+
+def _run_names_case(case):
+    from pathlib import Path
+
+    res = {"case": case, "steps": []}
+    with K.tmpdir() as tmp:
+        tmp = os.path.realpath(tmp)
+        parent, work = os.path.join(tmp, "out"), os.path.join(tmp, "work")
+        os.makedirs(parent)
+        os.makedirs(work)
+        mk = (lambda base: os.path.join(base, case["name"])) if case["as"] == "str" else (
+            lambda base: Path(base) / case["name"])
+        # bystander geffs at neighbour paths (never the normalised output location itself)
+        for b in case.get("bystanders", []):
+            K.do_write("write_arrays", os.path.join(parent, b), {"id_dtype": "uint8", "ids": [7, 8], "edges": [[7, 8]],
+                       "nprops": [], "eprops": [], "directed": True, "salt": 3}, case["fmt"], False)
+        K.drain()
+        for i, st in enumerate(case["steps"]):
+            pre = walk(parent)
+            out = convert_call(case["entry"], st["variant"], mk(parent), case["fmt"], st["overwrite"], work)
+            K.drain()
+            post = walk(parent)
+            # the same conversion into an empty parent: tells where the output goes and what it must be
+            fparent = os.path.join(tmp, f"fresh{i}")
+            os.makedirs(fparent)
+            fout = convert_call(case["entry"], st["variant"], mk(fparent), case["fmt"], False, work)
+            K.drain()
+            fresh = walk(fparent)
+            tops = sorted({k.split("/")[0] for k in fresh})
+            in_out = lambda k: k.split("/")[0] in tops  # noqa: E731
+            had = any(in_out(k) for k in pre)
+            o = {"i": i, "out": out, "fresh_out": fout, "output_tops": tops, "had_output": had,
+                 "unchanged": pre == post,
+                 "bystanders_same": {k: v for k, v in pre.items() if not in_out(k)} == {k: v for k, v in post.items() if not in_out(k)},
+                 "output_eq_fresh": {k: v for k, v in post.items() if in_out(k)} == fresh,
+                 "changed": sorted({k.split("/")[0] for k in set(pre) | set(post) if pre.get(k) != post.get(k)})[:6]}
+            res["steps"].append(o)
+    return res
+
+
+def judge_names(ck, r):
+    c = r["case"]
+    for st, o in zip(c["steps"], r["steps"]):
+        cc = {**c, "steps": c["steps"][: o["i"] + 1]}
+        where = (f"step {o['i']} ({c['entry']} to output name {c['name']!r} as {c['as']}, overwrite={st['overwrite']}, "
+                 f"zarr_format={c['fmt']}, bystanders {c.get('bystanders', [])})")
+        if o["fresh_out"] != "ok":
+            ck.fail("C06:fresh-reference-fails", f"{where}: the same conversion into an empty directory fails: {o['fresh_out']}", cc,
+                    o, "fresh conversion succeeds")
+            continue
+        if not o["bystanders_same"]:
+            ck.fail("C06:converter-clobbers-bystander", f"{where}: a geff that is NOT the output location ({o['output_tops']}) was "
+                    f"changed or deleted: {o['changed']}", cc, o, "everything outside the output location byte-identical")
+        if o["had_output"] and not st["overwrite"]:
+            if o["out"] != "FileExistsError" or not o["unchanged"]:
+                ck.fail("C06:existing-output-not-refused", f"{where}: the output location {o['output_tops']} exists, overwrite was not "
+                        f"requested, but the call ended with {o['out']}" + ("" if o["unchanged"] else " and the parent directory changed"),
+                        cc, o, "FileExistsError, every byte under the parent directory unchanged")
+        elif o["out"] != "ok":
+            ck.fail("C06:overwrite-fails" if o["had_output"] else "C06:conversion-fails",
+                    f"{where}: ended with {o['out']}" + (" although overwrite was requested" if o["had_output"] else ""), cc, o,
+                    "the new graph at the output location")
+        elif not o["output_eq_fresh"]:
+            ck.fail("C06:overwrite-differs-from-fresh" if o["had_output"] else "C06:write-differs-from-fresh",
+                    f"{where}: the output location differs from a fresh conversion", cc, o, "byte-identical to a fresh conversion")
+
+
+def gen_names_cases(ck):
+    rng = ck.rng
+    cases = []
+    entries = ["ctc", "trackmate", "cli_ctc", "cli_trackmate"]
+    neighbours = {"x.geff": ["x", "x.zarr"], "x.zarr": ["x.zarr"], "run1": ["run1"], "x.v1.geff": ["x.v1", "x.geff"],
+                  "a.b.c": ["a.b.c", "a.b"], "x.zarr/": ["x.zarr"], "data.2024.tracks": ["data.2024.tracks"]}
+    n = 0
+    for name in OUTPUT_NAMES:
+        for entry in entries:
+            for as_ in ("str", "path"):
+                for fmt in (2, 3):
+                    n += 1
+                    if ck.quick and n % 4 != (OUTPUT_NAMES.index(name) % 4):
+                        continue   # quick: every name x entry once, alternating str/Path and format
+                    if entry.startswith("cli_") and as_ == "path":
+                        continue
+                    steps = [{"variant": 0, "overwrite": False}, {"variant": 1, "overwrite": False},
+                             {"variant": 2 if "ctc" in entry else 1, "overwrite": True}]
+                    cases.append({"stream": "names", "entry": entry, "name": name, "as": as_, "fmt": fmt,
+                                  "bystanders": neighbours[name] if rng.random() < 0.8 else [], "steps": steps})
+    return cases
+
+
 # ----------------------------------------------------------------- generators
 def small_graph(rng, i, entry):
     if entry in K.CONVERTERS:
@@ -271,17 +415,33 @@ def model_request(r):
     return {"op": "history", "fmt": f0, "kind": K.model_kind(c["kind"]), "docs": K.docs_for(f0), "pre": r["pre"], "steps": steps}
 
 
+def _dispatch(case):
+    return run_names_case(case) if "name" in case else run_case(case)
+
+
 def run(ck: common.Check):
     ck.prove(["GeffProps.C06", "GeffProps.C06Links"])
     ck.rule = ("case = history of 2-4 writes on one store: store kind (Path, str, MemoryStore, LocalStore) x foreign siblings "
                "x zarr format x entry point per step (write_arrays, write_dicts, geff.write with 3 backends, both converters) x "
                "overwrite flags x graphs differing in size, id dtype and property sets; streams: corpus, bounded matrix "
                "(write; write; write(overwrite) for every kind x siblings x format x entry), seeded random histories, "
-               "home-relative locations (~/… as str and Path with $HOME pointed at a temporary directory), cross-format histories "
+               "home-relative locations (~/… as str and Path with $HOME pointed at a temporary directory), converter output names ({x.geff, x.zarr, no suffix, "
+               "x.v1.geff, dotted names, trailing slash} x str/Path x both converters x their CLI commands, with bystander geffs "
+               "at the neighbour paths, the whole parent directory snapshotted), cross-format histories "
                "(overwrite=True across formats is the known finding; without overwrite the other-format geff must be refused "
                "unchanged); non-trivial = at least one step meets an existing geff")
     cases = gen_cases(ck)
-    results = common.pmap(run_case, cases, chunksize=1)
+    name_cases = [c for c in cases if c.get("stream") == "names" or "name" in c] + gen_names_cases(ck)
+    cases = [c for c in cases if "name" not in c]
+    both = common.pmap(_dispatch, cases + name_cases, chunksize=1)
+    results, name_results = both[: len(cases)], both[len(cases):]
+    for r in name_results:
+        c = r["case"]
+        if "harness_error" in r:
+            ck.broken.append({"what": "corr C06:harness", "detail": {"case": c, "error": r["harness_error"], "tb": r.get("tb")}})
+            continue
+        ck.case(c, tag=f"names/{c['entry']}/{c['name']}", nontrivial=True)
+        judge_names(ck, r)
     drv = ck.driver()
     good = [r for r in results if "harness_error" not in r and not r["case"].get("cross")]
     reqs = [(r, model_request(r)) for r in good]
@@ -336,7 +496,7 @@ def run(ck: common.Check):
 
 def replay(rp):
     c = rp["case"]
-    r = run_case(c)
+    r = _dispatch(c)
     if "harness_error" in r:
         print(r["harness_error"], r.get("tb"))
         return 2
@@ -349,6 +509,14 @@ def replay(rp):
             self.f.append((key, what))
 
     k = _Ck()
+    if "name" in c:
+        judge_names(k, r)
+        for o in r["steps"]:
+            print(json.dumps(o))
+        for key, what in k.f:
+            print(f"  [{key}] {what}")
+        print("REPLAY: property FAILS on this input" if k.f else "REPLAY: property holds on this input")
+        return 1 if k.f else 0
     judge(k, r)
     for o in r["steps"]:
         print(json.dumps({x: o[x] for x in ("i", "out", "had_geff", "unchanged", "foreign_same") if x in o}
